@@ -47,6 +47,12 @@ pub fn mem_lens(mode: Mode, tier: Tier) -> (Vec<usize>, usize) {
     };
     let pool = lens::thin(&lens::pool(dense_n, hi), tier.pick(32, 160));
     l.extend(pool.iter().map(|x| x.0));
+    // size-gated code paths: a few large lengths (light shape set, see `shapes`)
+    for big in tier.pick(vec![16384usize, 32768, 65536, 3 * 32768, 131072], vec![16384usize, 32768, 65536, 3 * 32768, 131072, 262144, 5 * 65536, 524288, 1 << 20]) {
+        if !l.contains(&big) {
+            l.push(big);
+        }
+    }
     // interleave large and small so that stripes (index mod workers) are balanced
     (l, dense_n)
 }
@@ -100,6 +106,24 @@ thread_local! {
 fn shapes(mode: Mode, n: usize, e: Entry, adv: usize, kmax: usize) -> Vec<(usize, usize, usize)> {
     let mut v: Vec<(usize, usize, usize)> = Vec::new();
     let out = |dl: usize| if e.has_output() { dl } else { 0 };
+    if n > 16000 {
+        // large lengths: well-shaped k = 1, 2 and three ill-shaped variants
+        v.push((n, out(n), adv));
+        v.push((2 * n, out(2 * n), adv));
+        v.push((n + 1, out(n + 1), adv));
+        if e.has_output() {
+            v.push((n, n - 1, adv));
+        }
+        if e != Entry::Process && adv > 0 {
+            v.push((n, out(n), adv - 1));
+        }
+        if mode == Mode::C15 {
+            for s in v.iter_mut() {
+                s.1 = if s.1 == 0 { s.0 } else { s.1 };
+            }
+        }
+        return v;
+    }
     match mode {
         Mode::C03 => {
             for k in 1..=kmax {
@@ -315,7 +339,7 @@ pub fn worker_main(args: &[String]) -> i32 {
         _ => 8,
     };
     let nmax = my.iter().copied().max().unwrap_or(1);
-    let elems = |n: usize| -> usize { (if n <= dense_n { kmax_dense.max(4) } else { 4 }) * n + n + 2 };
+    let elems = |n: usize| -> usize { (if n <= dense_n { kmax_dense.max(4) } else if n > 16000 { 2 } else { 4 }) * n + n + 2 };
     let bytes = elems(nmax) * 16;
     // scratch can be larger than the data (Bluestein): be generous, it is only address space
     let mut w = Worker { mode, counter: 0, skip_upto, single, evaluations: 0, nontrivial: 0, states: 0, a_in: Arena::new(bytes), a_ro: DualArena::new(if mode == Mode::C15 { bytes } else { 4096 }), a_out: Arena::new(bytes), a_scr: Arena::new(bytes * 4 + (1 << 20)), dbg_build: cfg!(debug_assertions) };
@@ -497,7 +521,8 @@ pub fn run_parent(mode: Mode, ctx: &Ctx) -> Report {
                 8 => "SIGFPE",
                 _ => "signal",
             };
-            rep.violate(k.clone(), format!("{} ({}) while executing the call: an access outside the caller's buffers hit a guard page, or an unsafe precondition check aborted", signame, sig), Json::obj().with("signal", sig));
+            let cause = if mode == Mode::C15 { "a store into the read-only mapping that holds the input of process_immutable_with_scratch (or an access outside the caller's buffers)" } else { "an access outside the caller's buffers hit a guard page, or an unsafe precondition check aborted" };
+            rep.violate(k.clone(), format!("{} ({}) while executing the call: {}", signame, sig, cause), Json::obj().with("signal", sig));
         }
         rep.machinery_errors.extend(o.machinery);
     }
